@@ -8,6 +8,7 @@ import (
 	"path/filepath"
 	"sort"
 	"strings"
+	"sync"
 )
 
 // A seeded fault is a static variant of the program: one edit of the live
@@ -51,6 +52,25 @@ func loadSeeded(verif string) []seededFault {
 		var one seededFault
 		if err := json.Unmarshal(b, &one); err == nil {
 			out = append(out, one)
+		}
+	}
+	// behaviour-preserving corpora: seeded/equiv/index.json, seeded/refactor/index.json
+	for _, dir := range []string{"equiv", "refactor"} {
+		b, err := os.ReadFile(filepath.Join(verif, "seeded", dir, "index.json"))
+		if err != nil {
+			continue
+		}
+		var many []struct {
+			seededFault
+			Patch string `json:"patch"`
+		}
+		if err := json.Unmarshal(b, &many); err != nil {
+			continue
+		}
+		for _, m := range many {
+			sf := m.seededFault
+			sf.patch = filepath.Join(verif, "seeded", dir, m.Patch)
+			out = append(out, sf)
 		}
 	}
 	metas, _ := filepath.Glob(filepath.Join(verif, "seeded", "*", "meta.json"))
@@ -159,85 +179,125 @@ func overlayFromPatch(repo, patch string) (map[string][]byte, string, bool) {
 
 func selfValidate(rc runConfig, spec *PropertySpec) (map[string]interface{}, int) {
 	all := loadSeeded(rc.verif)
-	total, detected, inapplicable, missedDocumented, defects := 0, 0, 0, 0, 0
-	var list []map[string]interface{}
+	var rel []*seededFault
 	for i := range all {
-		sf := &all[i]
-		relevant := false
-		for _, p := range sf.Properties {
+		for _, p := range all[i].Properties {
 			if p == spec.ID {
-				relevant = true
+				rel = append(rel, &all[i])
+				break
 			}
 		}
-		if !relevant {
-			continue
-		}
-		total++
-		entry := map[string]interface{}{"id": sf.ID, "note": sf.Note}
-		ov, why, ok := overlayFor(rc.repo, sf)
-		if !ok {
-			inapplicable++
-			entry["status"] = "inapplicable"
-			entry["why"] = why
-			list = append(list, entry)
-			continue
-		}
-		cr, _, err := analyse(rc.repo, "", ov, spec, false)
-		if err != nil {
-			inapplicable++
-			entry["status"] = "inapplicable"
-			entry["why"] = "variant does not load/type-check: " + err.Error()
-			list = append(list, entry)
-			continue
-		}
-		var fired []string
-		firedRule := map[string]bool{}
-		for _, rr := range cr.Results {
-			for _, o := range rr.Obligations {
-				if o.Verdict != Discharged {
-					fired = append(fired, o.Key()+" ["+string(o.Verdict)+"]")
-					firedRule[o.Rule] = true
-				}
-			}
-		}
-		hit := len(fired) > 0
-		if hit && len(sf.ExpectRules) > 0 {
-			hit = false
-			for _, r := range sf.ExpectRules {
-				if firedRule[r] {
-					hit = true
-				}
-			}
-		}
-		entry["fired"] = fired
-		if sf.Expect == "silent" {
-			// a behaviour-preserving variant: the property still holds, so no rule may fire
-			if len(fired) == 0 {
-				detected++
-				entry["status"] = "silent as required (behaviour-preserving variant)"
-			} else {
-				defects++
-				entry["status"] = "FALSE ALARM on a behaviour-preserving variant (checker defect)"
-			}
-			list = append(list, entry)
-			continue
-		}
-		switch {
-		case hit:
+	}
+	type result struct {
+		entry  map[string]interface{}
+		status int // 0 detected/silent-ok, 1 inapplicable, 2 documented miss, 3 defect
+	}
+	results := make([]result, len(rel))
+	workers := 8
+	sem := make(chan struct{}, workers)
+	var wg sync.WaitGroup
+	for i, sf := range rel {
+		wg.Add(1)
+		sem <- struct{}{}
+		go func(i int, sf *seededFault) {
+			defer wg.Done()
+			defer func() { <-sem }()
+			results[i] = evalSeeded(rc, spec, sf)
+		}(i, sf)
+	}
+	wg.Wait()
+	total, detected, inapplicable, missedDocumented, defects := len(rel), 0, 0, 0, 0
+	var list []map[string]interface{}
+	for _, r := range results {
+		list = append(list, r.entry)
+		switch r.status {
+		case 0:
 			detected++
-			entry["status"] = "detected"
-		case sf.Expect == "missed":
+		case 1:
+			inapplicable++
+		case 2:
 			missedDocumented++
-			entry["status"] = "missed (documented blind spot)"
 		default:
 			defects++
-			entry["status"] = "NOT DETECTED (checker defect)"
 		}
-		list = append(list, entry)
 	}
 	return map[string]interface{}{
 		"seeded_total": total, "seeded_detected": detected, "seeded_inapplicable": inapplicable,
 		"seeded_missed_documented": missedDocumented, "seeded_undetected": defects, "seeded": list,
-		"method": "each seeded fault is applied to the live source in memory (go/packages overlay) and analysed statically; nothing is executed",
+		"method": "each seeded variant is applied to the live source in memory (go/packages overlay) and analysed statically; nothing is executed. 'detected' also counts behaviour-preserving variants on which every rule stayed silent as required",
 	}, defects
+}
+
+func evalSeeded(rc runConfig, spec *PropertySpec, sf *seededFault) (res struct {
+	entry  map[string]interface{}
+	status int
+}) {
+	entry := map[string]interface{}{"id": sf.ID, "note": sf.Note}
+	res.entry = entry
+	ov, why, ok := overlayFor(rc.repo, sf)
+	if !ok {
+		entry["status"] = "inapplicable"
+		entry["why"] = why
+		res.status = 1
+		return
+	}
+	cr, _, err := analyse(rc.repo, "", ov, spec, false)
+	if err != nil {
+		entry["status"] = "inapplicable"
+		entry["why"] = "variant does not load/type-check: " + err.Error()
+		res.status = 1
+		return
+	}
+	var fired []string
+	firedRule := map[string]bool{}
+	for _, rr := range cr.Results {
+		for _, o := range rr.Obligations {
+			if o.Verdict != Discharged {
+				fired = append(fired, o.Key()+" ["+string(o.Verdict)+"]")
+				firedRule[o.Rule] = true
+			}
+		}
+	}
+	entry["fired"] = fired
+	switch sf.Expect {
+	case "alarm-documented":
+		if len(fired) == 0 {
+			entry["status"] = "silent (was a documented false alarm; now fine)"
+			res.status = 0
+		} else {
+			entry["status"] = "FALSE ALARM (documented limitation: larger refactoring the rules cannot follow)"
+			res.status = 2
+		}
+		return
+	case "silent":
+		if len(fired) == 0 {
+			entry["status"] = "silent as required (behaviour-preserving variant)"
+			res.status = 0
+		} else {
+			entry["status"] = "FALSE ALARM on a behaviour-preserving variant (checker defect)"
+			res.status = 3
+		}
+		return
+	}
+	hit := len(fired) > 0
+	if hit && len(sf.ExpectRules) > 0 {
+		hit = false
+		for _, r := range sf.ExpectRules {
+			if firedRule[r] {
+				hit = true
+			}
+		}
+	}
+	switch {
+	case hit:
+		entry["status"] = "detected"
+		res.status = 0
+	case sf.Expect == "missed":
+		entry["status"] = "missed (documented blind spot)"
+		res.status = 2
+	default:
+		entry["status"] = "NOT DETECTED (checker defect)"
+		res.status = 3
+	}
+	return
 }
